@@ -1,6 +1,6 @@
 CONSTANTS
   NDocs = 24
-  NOperators = 44
+  NOperators = 45
   MaxSite = 5
 INIT Init
 NEXT Next
